@@ -119,7 +119,7 @@ theorem pl7_succ (f : Nat) (ih : PAll7 W f) : PL7 W (f + 1) := by
           below fr hsc hinv1' hwt2 hcb hext hft.2
         simp only
         rcases ihb with ihb | ihb
-        · exact .inl (SimF.Fails.after (n + 1 + 1) hp ihb)
+        · exact .inl (SimF.Ovf.after (n + 1 + 1) hp ihb)
         cases hrb : evalBV f b { st1 with last := acc } with
         | val w st2 =>
           rw [hrb] at ihb
@@ -218,8 +218,8 @@ theorem pe7_call (hW : WOK7 W) (f : Nat) (ih : PAll7 W f) {nl : Nat} {fn : Bool}
       obtain ⟨s2, hs2, ho2⟩ := hstep_gt (by omega)
       exact .inr ⟨n2, _, s2, hn2, hs2, by rw [ho2]; exact hinv2.out.symm⟩
     · simp only [hgt, ↓reduceIte]
-      rcases hstep_le (by omega) with ⟨s2, hs2⟩ | hnext
-      · exact .inl ⟨n2, _, s2, hn2, hs2⟩
+      rcases hstep_le (by omega) with hlim | hnext
+      · exact .inl ⟨n2, _, hn2, hlim⟩
       -- the callee's activation
       obtain ⟨hfcode, hfext, ⟨Γ1, Λ1, hyb⟩, hpok, hpsz, hfft⟩ := hW.fns fid info hft
       subst hip; subst hps; subst hnl; subst hbody
@@ -232,7 +232,7 @@ theorem pe7_call (hW : WOK7 W) (f : Nat) (ih : PAll7 W f) {nl : Nat} {fn : Bool}
         ⟨μ2, { st2 with lenv := bindParams info.ps xs }, info.ip, ms.toArray ++ Array.replicate (info.nl - as.length) Value.null, #[], g2, l2, m2, out2⟩
         info.cs (below ++ locs2 ++ c.ops) ({ ip := c.ip + sizeEs as + sizeE fe + 2, bp := below.size } :: fr) rfl hscf hinvf hwtc hfcode hfext hfft
       rcases hbf with hbf | hbf
-      · exact .inl (SimF.Fails.after (n2 + 1) hn3 hbf)
+      · exact .inl (SimF.Ovf.after (n2 + 1) hn3 hbf)
       -- both normal completion and `antwoord` come back to the caller
       have hback : ∀ v st3, Returns6 W (bigScope fn Γ Γx) (below ++ locs2 ++ c.ops) ({ ip := c.ip + sizeEs as + sizeE fe + 2, bp := below.size } :: fr)
             ⟨μ2, { st2 with lenv := bindParams info.ps xs }, info.ip, ms.toArray ++ Array.replicate (info.nl - as.length) Value.null, #[], g2, l2, m2, out2⟩
